@@ -136,9 +136,12 @@ def run_partition(case):
 def run_case(case):
     if case["stratum"] == "partition":
         return run_partition(case)
+    from simkit import lineage_ref
     out = le.run_lineage(case)
     stats = {"lineages": 1}
     viols = le.lineage_oracle(case, out, stats)
+    if not viols:
+        viols += lineage_ref.lockstep_lineage(case, out, stats)
     lm = case["lm"]
     stats["div_" + lm["division"]["kind"]] = 1
     stats["growth_" + lm["growth"]["kind"]] = 1
